@@ -302,7 +302,18 @@ def _only_single_path(nodes, a, b):
             edges = [pa[k][1] for k in range(1, i + 1)] + [pb[k][1] for k in range(1, j + 1)]
             if len(edges) < 2:
                 return False
-            return all(e is not None and e[0] == 1 and not e[1] for e in edges)
+            if not all(e is not None and e[0] == 1 and not e[1] for e in edges):
+                return False
+            # at least one saturated carbon in the ring, so that RDKit can never perceive the ring as aromatic
+            ring_atoms = [pa[k][0] for k in range(0, i + 1)] + [pb[k][0] for k in range(0, j)]
+
+            def saturated_c(x):
+                if x.label != "C":
+                    return False
+                if id(x) in parent and parent[id(x)][1] != 1:
+                    return False
+                return all(c[0] == 1 for c in x.children)
+            return any(saturated_c(x) for x in ring_atoms)
     return False
 
 
